@@ -21,8 +21,15 @@ closure, so that an edit of the Python source re-opens the proof.
 
 Anything outside the subset raises `Untranslatable`, which the check treats as
 a broken obligation.
+
+Second half of this file: `Tr` / `translate_function`, the STATEMENT-LEVEL
+translator (whole functions: loops, early return, exceptions, tuples, text,
+methods, generators) used by `harness/corr/_tr.py`; its table of constructs is
+in the comment above `class Tr`. The hand-written model is proved EQUAL to its
+output in `lean/PyGqlModel/Props/Cxx_tr.lean`.
 """
 import ast
+import re
 import textwrap
 
 
@@ -201,3 +208,986 @@ def header(origin):
     /- GENERATED on every run by harness (py2lean.py) from %s.
        Do not edit: the check rewrites this file from /repo's working tree. -/
     """ % origin)
+
+
+# =====================================================================================================
+# Tr: the statement-level translator (typed; loops, tuples, text, early return, exceptions)
+# =====================================================================================================
+#
+#   Python                                   Lean (prelude: lean/PyGqlModel/PyPrelude.lean, namespace PyGql.Py)
+#   ---------------------------------------  ------------------------------------------------------------------
+#   def f(a: str, p: int) -> Tuple[int,int]  def f (a : List Nat) (p : Int) : Except String (Int × Int)
+#   int / str / single character             Int / List Nat (code points) / Nat
+#   return e / raise Cls(...)                .ok e / .error "Cls"   (inside a loop: Flow.ret e / Flow.raise "Cls")
+#   x = e ; x += e ; a, b = e1, e2 ; a, b = t let-bindings (rebinding = shadowing)
+#   if / elif / else                         if-then-else; the statements after the `if` are the continuation of BOTH
+#                                            branches (duplicated textually)
+#   for x in seq / for i, x in enumerate(..) an auxiliary `def f.loopN` by STRUCTURAL recursion on the list; the variables
+#                                            assigned in the body that exist before the loop are its accumulators; the
+#                                            other variables it reads are parameters; `break` = Flow.fall accs,
+#                                            `continue` = the recursive call, early `return` = Flow.ret
+#   while c: body                            `def f.whileN` recursive on a fuel taken from the spec (a Python expression
+#                                            evaluated at loop entry); running out of fuel is the exception "OutOfFuel",
+#                                            never a silent stop
+#   xs[i], xs[i] = v, xs.pop(0), xs.pop()    Py.getItem / setItem / pop0 / popLast : Except String _ (IndexError explicit);
+#                                            an expression containing one becomes Except-valued and is bound (`match`)
+#                                            left to right before use; `and` / `or` / if-expressions keep short-circuiting
+#   xs[i:j], xs[i:], xs[:j]                  Py.slice / sliceFrom / sliceTo (negative and out-of-range bounds as CPython)
+#   len, min, max, enumerate, range, bool    Py.len, Py.imin, Py.imax, Py.enumerate, Py.range, truthiness by type
+#   c == "\n", c in " \t", s != "\n"         code-point comparisons / membership in a literal list
+#   s.lstrip(" \t"), "\n".join(xs)           Py.lstrip s [32, 9], Py.join [10] xs   (explicit character sets only)
+#   try: S except C1 / (C1, C2): H [else]   the body is a sub-computation; a raised class NAMED by a handler runs it (first match),
+#                                            any other propagates; classes are matched by name (no subclassing)
+#   methods (cls=...)                        self.X -> variable self_X; attributes listed in self_state are returned with the result
+#   sorted(xs, key=lambda a: k)              Py.sortedBy lt (fun a => k) xs (stable insertion sort; `lt` from the spec)
+#   zip, all/any(<generator>)                List.zip, List.all / List.any (pure bodies)
+#   def g(...): ... yield e ...              generator: `yield e` appends to a hidden accumulator, the function returns the list of
+#                                            everything yielded (the generator run to its end)
+#   [a, b], self.m()                         list display; another translated method run on the current attribute values
+#   <expr> listed in the spec's `whole`      read as the spec says (operations on dynamically typed values: `x is None`, `n != x`)
+#   join=True (spec)                         the statements after an if / try become ONE auxiliary definition `f.kN` of the variables
+#                                            they read (no textual copies; function level only); locals_={"c": Optional type}: a value
+#                                            of the base type assigned to such a local is wrapped in `some`, `None` is `none`
+#   f(...), obj.m(...), isinstance, attrs    only through the tables of the spec (`externals`, `isinstance_map`, `attrs`,
+#                                            `consts`); an external marked partial is Except-valued
+#
+# Anything else raises Untranslatable (a broken obligation of the property, never a crash of the harness).
+
+LEAN_KEYWORDS = set("""include open end at from fun have show match with do then else if let in def theorem example namespace
+section variable universe instance structure class inductive where deriving by calc this mutual partial private protected
+export import prefix infix notation macro syntax set_option attribute local forall exists Type Prop Sort using extends
+abbrev opaque axiom noncomputable unsafe nomatch nofun return mut for unless try catch finally break continue""".split())
+
+
+class E:
+    """a translated expression: Lean text, type, and whether the text is `Except String <type>`-valued"""
+    __slots__ = ("text", "ty", "partial")
+
+    def __init__(self, text, ty, partial=False):
+        self.text, self.ty, self.partial = text, ty, partial
+
+
+class Ext:
+    """an external callee / attribute: Lean text applied to the translated arguments"""
+
+    def __init__(self, lean, ret, partial=False, kw=()):
+        self.lean, self.ret, self.partial, self.kw = lean, ret, partial, tuple(kw)
+
+
+INT, BOOL, CHAR = "Int", "Bool", "Char"
+
+
+def TList(t):
+    return ("List", t)
+
+
+TEXT = TList(CHAR)
+
+
+def lean_ty(t):
+    if isinstance(t, str):
+        return {"Char": "Nat"}.get(t, t)
+    if t[0] == "List":
+        return "List " + _atom(lean_ty(t[1]))
+    if t[0] == "Option":
+        return "Option " + _atom(lean_ty(t[1]))
+    if t[0] == "Tuple":
+        return " × ".join(_atom(lean_ty(x)) for x in t[1:])
+    if t[0] == "Opaque":
+        return t[1]
+    raise Untranslatable("type %r" % (t,))
+
+
+def _atom(s):
+    return s if re.fullmatch(r"[A-Za-z0-9_.]+", s) else "(" + s + ")"
+
+
+def ann_type(a):
+    """a Python annotation -> type"""
+    if a is None:
+        raise Untranslatable("missing annotation")
+    if isinstance(a, ast.Name):
+        if a.id in ("str",):
+            return TEXT
+        if a.id == "int":
+            return INT
+        if a.id == "bool":
+            return BOOL
+    if isinstance(a, ast.Subscript) and isinstance(a.value, ast.Name):
+        args = a.slice.elts if isinstance(a.slice, ast.Tuple) else [a.slice]
+        if a.value.id == "Tuple":
+            return ("Tuple",) + tuple(ann_type(x) for x in args)
+        if a.value.id in ("List", "Sequence") and len(args) == 1:
+            return TList(ann_type(args[0]))
+        if a.value.id == "Optional" and len(args) == 1:
+            return ("Option", ann_type(args[0]))
+    raise Untranslatable("annotation " + ast.unparse(a))
+
+
+def _ind(text, n=2):
+    pad = " " * n
+    return "\n".join(pad + l if l else l for l in text.split("\n"))
+
+
+def _codes(s):
+    return "[" + ", ".join(str(ord(c)) for c in s) + "]"
+
+
+class Tr:
+    def __init__(self, lean_name, env, ret_ty, externals=None, isinstance_map=None, attrs=None, consts=None, fuel=None,
+                 generic_exc=False, whole=None, methods=None, implicit="", join=False, locals_=None):
+        self.name = lean_name
+        # generic_exc: the function is abstracted over the exception type `ε` with `exc : String → ε` naming built-in classes
+        self.generic = generic_exc
+        self.full_ret_ty = None         # methods: (result, mutated attributes...)
+        # whole-expression patterns of the spec: source text of an expression -> (lean text, type[, partial]); for
+        # operations on dynamically typed values (`x is None`, `n != x`, `not x`) whose meaning the spec supplies
+        self.whole = whole or {}
+        # other translated methods of the same class called as statements: python method name -> lean function taking the
+        # `self_` variables below and returning ((), the mutated ones)
+        self.methods = methods or {}
+        # implicit binders (type parameters) of the spec, repeated on the auxiliary loop definitions
+        self.implicit = (" " + implicit) if implicit else ""
+        self.self_params, self.self_state = [], []
+        # join=True: the statements after an `if` / `try` are emitted ONCE as a local function `k__N` of the variables the
+        # branches assign and the rest reads (instead of being copied into every branch)
+        self.join = join
+        self.njoin = 0
+        # declared types of locals (`Optional[str]` variables: a value of the base type is wrapped in `some`)
+        self.declared = dict(locals_ or {})
+        self.exc_ty = "ε" if generic_exc else "String"
+        self.env = dict(env)            # python variable -> type
+        self.ret_ty = ret_ty
+        self.externals = externals or {}
+        self.isinstance_map = isinstance_map or {}
+        self.attrs = attrs or {}        # dotted source text -> (lean text, type)
+        self.consts = {"sys.maxsize": ("(9223372036854775807 : Int)", INT)}
+        self.consts.update(consts or {})
+        self.fuel = list(fuel or [])
+        self.aux = []                   # auxiliary definitions (loops), in dependency order
+        self.nloop = 0
+        self.nfresh = 0
+        self.in_loop = False
+        self.constructs = set()
+
+    # ---- helpers ---------------------------------------------------------
+    def fresh(self):
+        self.nfresh += 1
+        return "t%d__" % self.nfresh
+
+    def ret(self, text):
+        return "(.ret %s)" % text if self.in_loop else "(.ok %s)" % text
+
+    def err(self, text):
+        return "(.raise %s)" % text if self.in_loop else "(.error %s)" % text
+
+    def cls(self, name):
+        return '(exc "%s")' % name if self.generic else '"%s"' % name
+
+    def prim(self, text):
+        """a partial built-in of the prelude (raises a class NAME)"""
+        return "(Py.mapErr exc %s)" % text if self.generic else text
+
+    def bind(self, e, var, body):
+        """evaluate the (possibly partial) expression `e`, name it `var` (a pattern), continue with `body`"""
+        if e.partial:
+            return "(match %s with\n  | .error e__ => %s\n  | .ok %s =>\n%s)" % (e.text, self.err("e__"), var, _ind(body, 4))
+        return "(let %s := %s\n%s)" % (var, e.text, _ind(body, 1))
+
+    def lift(self, es, build):
+        """strict operator: bind the partial operands left to right, then `build(pure texts) -> (text, type)`"""
+        names, binds = [], []
+        for e in es:
+            if e.partial:
+                v = self.fresh()
+                binds.append((v, e.text))
+                names.append(v)
+            else:
+                names.append(e.text)
+        text, ty = build(names)
+        if not binds:
+            return E(text, ty)
+        inner = "(Except.ok %s : Except EXC__ _)" % text
+        for v, t in reversed(binds):
+            inner = "(match %s with | .error e__ => Except.error e__ | .ok %s => %s)" % (t, v, inner)
+        return E(inner, ty, True)
+
+    def truthy(self, e):
+        def build(ts):
+            (t,) = ts
+            ty = e.ty
+            if ty == BOOL:
+                return t, BOOL
+            if ty == INT:
+                return "(%s != 0)" % t, BOOL
+            if isinstance(ty, tuple) and ty[0] == "List":
+                return "(!(%s).isEmpty)" % t, BOOL
+            if isinstance(ty, tuple) and ty[0] == "Option":
+                return "(%s).isSome" % t, BOOL
+            raise Untranslatable("truthiness of a value of type %r" % (ty,))
+        return self.lift([e], build)
+
+    def shortcircuit(self, a, b, is_and):
+        """`a and b` / `a or b` on Bool-valued (already truthified) operands, `b` evaluated only if needed"""
+        if not a.partial and not b.partial:
+            return E("(%s %s %s)" % (a.text, "&&" if is_and else "||", b.text), BOOL)
+        bt = b.text if b.partial else "(Except.ok %s : Except EXC__ _)" % b.text
+        skip = "(Except.ok %s : Except EXC__ _)" % ("false" if is_and else "true")
+        v = self.fresh()
+        body = "(if %s then %s else %s)" % ((v, bt, skip) if is_and else (v, skip, bt))
+        if a.partial:
+            return E("(match %s with | .error e__ => Except.error e__ | .ok %s => %s)" % (a.text, v, body), BOOL, True)
+        return E("(let %s := %s; %s)" % (v, a.text, body), BOOL, True)
+
+    # ---- expressions -----------------------------------------------------
+    def whole_pattern(self, e):
+        src = ast.unparse(e)
+        if src in self.whole:
+            w = self.whole[src]
+            self.constructs.add("expression read through the spec's table: " + src)
+            return E(w[0], w[1], len(w) > 2 and w[2])
+        return None
+
+    def test(self, e):
+        """an expression in boolean context"""
+        w = self.whole_pattern(e)
+        if w is not None and w.ty == BOOL:
+            return w
+        if isinstance(e, ast.BoolOp):
+            is_and = isinstance(e.op, ast.And)
+            acc = self.test(e.values[-1])
+            for v in reversed(e.values[:-1]):
+                acc = self.shortcircuit(self.test(v), acc, is_and)
+            return acc
+        if isinstance(e, ast.UnaryOp) and isinstance(e.op, ast.Not):
+            return self.lift([self.test(e.operand)], lambda ts: ("(!%s)" % ts[0], BOOL))
+        return self.truthy(self.expr(e))
+
+    def const_str(self, e, want):
+        """a str literal as text or as a single code point"""
+        s = e.value
+        if want == CHAR:
+            if len(s) != 1:
+                raise Untranslatable("a character compared with the %d-character literal %r" % (len(s), s))
+            return E(str(ord(s)), CHAR)
+        return E("(%s : List Nat)" % _codes(s), TEXT)
+
+    def expr(self, e, want=None):
+        w = self.whole_pattern(e)
+        if w is not None:
+            return w
+        if isinstance(e, ast.Constant):
+            if isinstance(e.value, bool):
+                return E("true" if e.value else "false", BOOL)
+            if isinstance(e.value, int):
+                return E("(%d : Int)" % e.value, INT)
+            if isinstance(e.value, str):
+                if isinstance(want, tuple) and want[0] == "Option":
+                    x = self.const_str(e, want[1])
+                    return E("(some %s)" % x.text, want)
+                return self.const_str(e, want)
+            if e.value is None and isinstance(want, tuple) and want[0] == "Option":
+                return E("none", want)
+            raise Untranslatable("constant %r" % (e.value,))
+        if isinstance(e, ast.Name):
+            if e.id in self.env:
+                return E(e.id, self.env[e.id])
+            if e.id in self.consts:
+                return E(*self.consts[e.id])
+            raise Untranslatable("free variable " + e.id)
+        if isinstance(e, ast.Attribute):
+            src = ast.unparse(e)
+            if src in self.attrs:
+                return E(*self.attrs[src])
+            if src in self.consts:
+                return E(*self.consts[src])
+            # attribute PATHS applied to any expression of a given type: ".name.value" -> (lean function, argument type, result type)
+            path, base, cands = "", e, []
+            while isinstance(base, ast.Attribute):
+                path = "." + base.attr + path
+                base = base.value
+                if path in self.attrs:
+                    cands.append((path, base))
+            for path, base in reversed(cands):   # longest path first
+                fn, arg_ty, res_ty = self.attrs[path]
+                try:
+                    x = self.expr(base)
+                except Untranslatable:
+                    continue
+                if x.ty == arg_ty:
+                    return self.lift([x], lambda ts: ("(%s %s)" % (fn, ts[0]), res_ty))
+            raise Untranslatable("attribute " + src)
+        if isinstance(e, ast.List) and e.elts:
+            es = [self.expr(x) for x in e.elts]
+            if any(x.ty != es[0].ty for x in es):
+                raise Untranslatable("list display of mixed types")
+            return self.lift(es, lambda ts: ("[" + ", ".join(ts) + "]", TList(es[0].ty)))
+        if isinstance(e, ast.Tuple):
+            es = [self.expr(x) for x in e.elts]
+            return self.lift(es, lambda ts: ("(" + ", ".join(ts) + ")", ("Tuple",) + tuple(x.ty for x in es)))
+        if isinstance(e, (ast.BoolOp,)) or (isinstance(e, ast.UnaryOp) and isinstance(e.op, ast.Not)):
+            # value context: Python's and/or return an OPERAND; that is the Bool we compute only if every operand is a bool
+            if isinstance(e, ast.BoolOp):
+                for v in e.values:
+                    if not self._is_boolish(v):
+                        raise Untranslatable("and/or of non-bool operands used as a value: " + ast.unparse(e))
+            return self.test(e)
+        if isinstance(e, ast.UnaryOp) and isinstance(e.op, ast.USub):
+            a = self.expr(e.operand)
+            self.need(a, INT, e)
+            return self.lift([a], lambda ts: ("(-%s)" % ts[0], INT))
+        if isinstance(e, ast.BinOp):
+            a, b = self.expr(e.left), self.expr(e.right)
+            if isinstance(e.op, (ast.Add, ast.Sub, ast.Mult)) and a.ty == INT and b.ty == INT:
+                op = {ast.Add: "+", ast.Sub: "-", ast.Mult: "*"}[type(e.op)]
+                return self.lift([a, b], lambda ts: ("(%s %s %s)" % (ts[0], op, ts[1]), INT))
+            if isinstance(e.op, ast.Add) and a.ty == b.ty and isinstance(a.ty, tuple) and a.ty[0] == "List":
+                return self.lift([a, b], lambda ts: ("(%s ++ %s)" % (ts[0], ts[1]), a.ty))
+            raise Untranslatable("operator in " + ast.unparse(e))
+        if isinstance(e, ast.IfExp):
+            c, a, b = self.test(e.test), self.expr(e.body), self.expr(e.orelse)
+            if a.ty != b.ty:
+                raise Untranslatable("branches of different types in " + ast.unparse(e))
+            if not (c.partial or a.partial or b.partial):
+                return E("(if %s then %s else %s)" % (c.text, a.text, b.text), a.ty)
+            raise Untranslatable("partial operation inside a conditional expression: " + ast.unparse(e))
+        if isinstance(e, ast.Compare):
+            return self.compare(e)
+        if isinstance(e, ast.Subscript):
+            return self.subscript(e)
+        if isinstance(e, ast.Call):
+            return self.call(e)
+        raise Untranslatable("expression " + ast.unparse(e))
+
+    def _is_boolish(self, v):
+        if isinstance(v, (ast.Compare, ast.BoolOp)) or (isinstance(v, ast.UnaryOp) and isinstance(v.op, ast.Not)):
+            return True
+        try:
+            return self.expr(v).ty == BOOL
+        except Untranslatable:
+            return False
+
+    def need(self, e, ty, node):
+        if e.ty != ty:
+            raise Untranslatable("%s has type %s, expected %s" % (ast.unparse(node), lean_ty(e.ty), lean_ty(ty)))
+
+    def compare(self, e):
+        operands = [e.left] + list(e.comparators)
+        parts = []
+        for l, op, r in zip(operands, e.ops, operands[1:]):
+            parts.append(self.compare1(l, op, r))
+        acc = parts[-1]
+        for p in reversed(parts[:-1]):
+            acc = self.shortcircuit(p, acc, True)   # a < b < c: middle operand is pure here (evaluated twice textually)
+        return acc
+
+    def compare1(self, l, op, r):
+        isnone = lambda x: isinstance(x, ast.Constant) and x.value is None
+        if isinstance(op, (ast.Is, ast.IsNot, ast.Eq, ast.NotEq)) and (isnone(l) or isnone(r)):
+            x = self.expr(r if isnone(l) else l)
+            neg = isinstance(op, (ast.IsNot, ast.NotEq))
+            if x.ty in (CHAR, INT, BOOL, TEXT):   # a str / int is never None
+                self.constructs.add("`is None` on a str/int-typed variable -> constant")
+                return self.lift([x], lambda ts: ("true" if neg else "false", BOOL))
+            if not (isinstance(x.ty, tuple) and x.ty[0] == "Option"):
+                raise Untranslatable("comparison with None of a value of type %s" % lean_ty(x.ty))
+            return self.lift([x], lambda ts: ("(%s).%s" % (ts[0], "isSome" if neg else "isNone"), BOOL))
+        if isinstance(op, (ast.In, ast.NotIn)):
+            a = self.expr(l)
+            if a.ty == CHAR and isinstance(r, ast.Constant) and isinstance(r.value, str):
+                txt = "(%s.contains %s)" if isinstance(op, ast.In) else "(!%s.contains %s)"
+                return self.lift([a], lambda ts: (txt % ("(%s : List Nat)" % _codes(r.value), ts[0]), BOOL))
+            if a.ty == ("Option", CHAR) and isinstance(r, ast.Constant) and isinstance(r.value, str):
+                # Optional[str] variable: None is in no string
+                txt = "(match %s with | some c__ => %s.contains c__ | none => false)"
+                if isinstance(op, ast.NotIn):
+                    raise Untranslatable("`not in` on an optional character")
+                return self.lift([a], lambda ts: (txt % (ts[0], "(%s : List Nat)" % _codes(r.value)), BOOL))
+            if a.ty == CHAR:
+                b = self.expr(r)
+                if b.ty == TEXT:
+                    txt = "(%s.contains %s)" if isinstance(op, ast.In) else "(!%s.contains %s)"
+                    return self.lift([b, a], lambda ts: (txt % (ts[0], ts[1]), BOOL))
+            raise Untranslatable("membership test " + ast.unparse(r))
+        # literal strings take the type of the other side (text or one character)
+        if isinstance(l, ast.Constant) and isinstance(l.value, str):
+            b = self.expr(r)
+            a = self.expr(l, want=b.ty)
+        else:
+            a = self.expr(l)
+            b = self.expr(r, want=a.ty)
+        if a.ty != b.ty:
+            raise Untranslatable("comparison of %s with %s" % (lean_ty(a.ty), lean_ty(b.ty)))
+        if isinstance(op, (ast.Eq, ast.NotEq)):
+            s = "==" if isinstance(op, ast.Eq) else "!="
+            return self.lift([a, b], lambda ts: ("(%s %s %s)" % (ts[0], s, ts[1]), BOOL))
+        if isinstance(op, (ast.Lt, ast.LtE, ast.Gt, ast.GtE)) and a.ty in (INT, CHAR):
+            s = {ast.Lt: "<", ast.LtE: "≤", ast.Gt: ">", ast.GtE: "≥"}[type(op)]
+            return self.lift([a, b], lambda ts: ("(decide (%s %s %s))" % (ts[0], s, ts[1]), BOOL))
+        raise Untranslatable("comparison " + type(op).__name__)
+
+    def subscript(self, e):
+        x = self.expr(e.value)
+        if isinstance(x.ty, tuple) and x.ty[0] == "Option" and isinstance(e.slice, ast.Constant) and ("[%r]" % (e.slice.value,)) in self.attrs:
+            # d["key"] on an optional record (None -> TypeError), result type from the spec's table
+            ty = self.attrs["[%r]" % (e.slice.value,)]
+            self.constructs.add("d[key] on an optional record (TypeError on None explicit)")
+            g = self.lift([x], lambda ts: (self.prim("(Py.optGet %s)" % ts[0]), ty))
+            if g.partial:
+                raise Untranslatable("partial operand in " + ast.unparse(e))
+            return E(g.text, ty, True)
+        if not (isinstance(x.ty, tuple) and x.ty[0] == "List"):
+            raise Untranslatable("subscript of a value of type %s" % lean_ty(x.ty))
+        sl = e.slice
+        if isinstance(sl, ast.Slice):
+            if sl.step is not None:
+                raise Untranslatable("slice step")
+            lo = self.expr(sl.lower) if sl.lower is not None else None
+            hi = self.expr(sl.upper) if sl.upper is not None else None
+            for b, n in ((lo, sl.lower), (hi, sl.upper)):
+                if b is not None:
+                    self.need(b, INT, n)
+            self.constructs.add("slice")
+            if lo is not None and hi is not None:
+                return self.lift([x, lo, hi], lambda ts: ("(Py.slice %s %s %s)" % tuple(ts), x.ty))
+            if lo is not None:
+                return self.lift([x, lo], lambda ts: ("(Py.sliceFrom %s %s)" % tuple(ts), x.ty))
+            if hi is not None:
+                return self.lift([x, hi], lambda ts: ("(Py.sliceTo %s %s)" % tuple(ts), x.ty))
+            return x
+        i = self.expr(sl)
+        self.need(i, INT, sl)
+        self.constructs.add("index (IndexError explicit)")
+        g = self.lift([x, i], lambda ts: (self.prim("(Py.getItem %s %s)" % tuple(ts)), x.ty[1]))
+        if g.partial:   # operands were partial themselves: flatten Except (Except _)
+            v = self.fresh()
+            return E("(match %s with | .error e__ => Except.error e__ | .ok %s => %s)" % (g.text, v, v), x.ty[1], True)
+        return E(g.text, x.ty[1], True)
+
+    def call(self, e):
+        fn = e.func
+        src = ast.unparse(fn)
+        if src in self.externals:
+            ext = self.externals[src]
+            if isinstance(ext, (list, tuple)):   # alternatives (lean, [argument types], result type, partial): first match
+                if e.keywords:
+                    raise Untranslatable("keyword arguments of " + src)
+                es = [self.expr(a) for a in e.args]
+                for lean, argtys, ret, partial in ext:
+                    if [x.ty for x in es] == list(argtys):
+                        r = self.lift(es, lambda ts: ("(%s)" % " ".join([lean] + ts), ret))
+                        if partial and r.partial:
+                            raise Untranslatable("partial operands of " + src)
+                        return E(r.text, ret, partial or r.partial)
+                raise Untranslatable("no reading of %s for argument types %s" % (src, [lean_ty(x.ty) for x in es]))
+            args = list(e.args)
+            kws = {k.arg: k.value for k in e.keywords}
+            if set(kws) - set(ext.kw):
+                raise Untranslatable("keyword arguments of " + src)
+            for k in ext.kw:
+                if k in kws:
+                    args.append(kws[k])
+            es = [self.expr(a) for a in args]
+            r = self.lift(es, lambda ts: ("(%s)" % " ".join([ext.lean] + ts), ext.ret))
+            if ext.partial:
+                if r.partial:
+                    v = self.fresh()
+                    return E("(match %s with | .error e__ => Except.error e__ | .ok %s => %s)" % (r.text, v, v), ext.ret, True)
+                return E(r.text, ext.ret, True)
+            return r
+        if e.keywords and src != "sorted":
+            raise Untranslatable("keyword arguments in call of " + src)
+        if isinstance(fn, ast.Name) and not e.keywords:
+            n, args = fn.id, e.args
+            if n == "len" and len(args) == 1:
+                x = self.expr(args[0])
+                if not (isinstance(x.ty, tuple) and x.ty[0] == "List"):
+                    raise Untranslatable("len of " + lean_ty(x.ty))
+                return self.lift([x], lambda ts: ("(Py.len %s)" % ts[0], INT))
+            if n in ("min", "max") and len(args) == 2:
+                a, b = self.expr(args[0]), self.expr(args[1])
+                self.need(a, INT, args[0]); self.need(b, INT, args[1])
+                return self.lift([a, b], lambda ts: ("(Py.i%s %s %s)" % (n, ts[0], ts[1]), INT))
+            if n == "bool" and len(args) == 1:
+                return self.test(args[0])
+            if n == "enumerate" and len(args) == 1:
+                x = self.expr(args[0])
+                if not (isinstance(x.ty, tuple) and x.ty[0] == "List"):
+                    raise Untranslatable("enumerate of " + lean_ty(x.ty))
+                self.constructs.add("enumerate")
+                return self.lift([x], lambda ts: ("(Py.enumerate %s)" % ts[0], TList(("Tuple", INT, x.ty[1]))))
+            if n == "isinstance" and len(args) == 2:
+                classes = list(args[1].elts) if isinstance(args[1], ast.Tuple) else [args[1]]
+                keys = [ast.unparse(c) for c in classes]
+                if all(k in self.isinstance_map for k in keys):
+                    x = self.expr(args[0])
+                    return self.lift([x], lambda ts: (
+                        "(" + " || ".join("(%s %s)" % (self.isinstance_map[k], ts[0]) for k in keys) + ")", BOOL))
+            if n == "range" and len(args) in (1, 2):
+                es = [self.expr(a) for a in args]
+                for x, a in zip(es, args):
+                    self.need(x, INT, a)
+                self.constructs.add("range(a, b) -> Py.range (the list of the integers a .. b-1)")
+                if len(es) == 1:
+                    return self.lift(es, lambda ts: ("(Py.range (0 : Int) %s)" % ts[0], TList(INT)))
+                return self.lift(es, lambda ts: ("(Py.range %s %s)" % tuple(ts), TList(INT)))
+            if n == "zip" and len(args) == 2:
+                a, b = self.expr(args[0]), self.expr(args[1])
+                if all(isinstance(x.ty, tuple) and x.ty[0] == "List" for x in (a, b)):
+                    self.constructs.add("zip")
+                    return self.lift([a, b], lambda ts: ("(List.zip %s %s)" % tuple(ts), TList(("Tuple", a.ty[1], b.ty[1]))))
+            if n in ("all", "any") and len(args) == 1 and isinstance(args[0], ast.GeneratorExp):
+                return self.quantifier(n, args[0])
+        if isinstance(fn, ast.Name) and fn.id == "sorted" and len(e.args) == 1 and [k.arg for k in e.keywords] == ["key"] \
+                and isinstance(e.keywords[0].value, ast.Lambda) and "sorted_lt" in self.consts:
+            # sorted(xs, key=lambda a: k) -> the stable insertion sort of the prelude, `<` on keys from the spec
+            lam = e.keywords[0].value
+            if len(lam.args.args) != 1 or lam.args.defaults or lam.args.vararg or lam.args.kwarg:
+                raise Untranslatable("key function " + ast.unparse(lam))
+            x = self.expr(e.args[0])
+            if not (isinstance(x.ty, tuple) and x.ty[0] == "List"):
+                raise Untranslatable("sorted of " + lean_ty(x.ty))
+            v = lam.args.args[0].arg
+            saved = self.env.get(v)
+            self.env[v] = x.ty[1]
+            k = self.expr(lam.body)
+            if saved is None:
+                del self.env[v]
+            else:
+                self.env[v] = saved
+            if k.partial:
+                raise Untranslatable("partial key function")
+            self.constructs.add("sorted(key=lambda) -> Py.sortedBy (stable insertion sort)")
+            return self.lift([x], lambda ts: ("(Py.sortedBy %s (fun %s => %s) %s)" % (self.consts["sorted_lt"][0], v, k.text, ts[0]), x.ty))
+        if isinstance(fn, ast.Attribute):
+            if fn.attr == "lstrip" and len(e.args) == 1 and isinstance(e.args[0], ast.Constant) and isinstance(e.args[0].value, str):
+                x = self.expr(fn.value)
+                self.need(x, TEXT, fn.value)
+                self.constructs.add("str.lstrip(literal set)")
+                return self.lift([x], lambda ts: ("(Py.lstrip %s %s)" % (ts[0], _codes(e.args[0].value)), TEXT))
+            if fn.attr == "join" and len(e.args) == 1 and isinstance(fn.value, ast.Constant) and isinstance(fn.value.value, str):
+                x = self.expr(e.args[0])
+                self.need(x, TList(TEXT), e.args[0])
+                self.constructs.add("str.join")
+                return self.lift([x], lambda ts: ("(Py.join %s %s)" % (_codes(fn.value.value), ts[0]), TEXT))
+        raise Untranslatable("call " + ast.unparse(e))
+
+    def quantifier(self, which, g):
+        """all(... for x in xs) / any(...): List.all / List.any with a pure body"""
+        if len(g.generators) != 1 or g.generators[0].ifs or g.generators[0].is_async:
+            raise Untranslatable("generator " + ast.unparse(g))
+        gen = g.generators[0]
+        it = self.expr(gen.iter)
+        if not (isinstance(it.ty, tuple) and it.ty[0] == "List"):
+            raise Untranslatable("generator over " + lean_ty(it.ty))
+        elem = it.ty[1]
+        if isinstance(gen.target, ast.Name):
+            targets, tys = [gen.target.id], [elem]
+        elif isinstance(gen.target, ast.Tuple) and all(isinstance(x, ast.Name) for x in gen.target.elts) \
+                and isinstance(elem, tuple) and elem[0] == "Tuple" and len(elem) - 1 == len(gen.target.elts):
+            targets, tys = [x.id for x in gen.target.elts], list(elem[1:])
+        else:
+            raise Untranslatable("generator target " + ast.unparse(gen.target))
+        saved = {t: self.env.get(t) for t in targets}
+        for t, ty in zip(targets, tys):
+            self.env[t] = ty
+        body = self.test(g.elt)
+        for t, old in saved.items():
+            if old is None:
+                del self.env[t]
+            else:
+                self.env[t] = old
+        if body.partial:
+            raise Untranslatable("partial operation inside a generator expression")
+        self.constructs.add("all/any(generator) -> List.all / List.any")
+        pat = targets[0] if len(targets) == 1 else "(" + ", ".join(targets) + ")"
+        return self.lift([it], lambda ts: ("(List.%s %s (fun %s => %s))" % (which, ts[0], pat, body.text), BOOL))
+
+    # ---- statements ------------------------------------------------------
+    def assign(self, name, ty):
+        if name in self.env and self.env[name] != ty:
+            raise Untranslatable("variable %s changes type from %s to %s" % (name, lean_ty(self.env[name]), lean_ty(ty)))
+        self.env[name] = ty
+
+    def block(self, stmts, k):
+        """statements, then the continuation `k()` (text) if control falls through"""
+        if not stmts:
+            return k()
+        s, rest = stmts[0], stmts[1:]
+        memo = []
+
+        def cont():
+            if not memo:
+                memo.append(self.block(rest, k))
+            return memo[0]
+
+        if isinstance(s, ast.Expr) and isinstance(s.value, ast.Constant) and isinstance(s.value.value, str):
+            return cont()
+        if isinstance(s, ast.Pass):
+            return cont()
+        if isinstance(s, ast.Return):
+            if s.value is None:
+                raise Untranslatable("bare return")
+            e = self.expr(s.value, want=self.ret_ty)
+            if e.ty != self.ret_ty:
+                if self.ret_ty == BOOL:
+                    e = self.test(s.value) if self._is_boolish(s.value) else e
+                if e.ty != self.ret_ty:
+                    raise Untranslatable("return of %s where %s is declared" % (lean_ty(e.ty), lean_ty(self.ret_ty)))
+            if e.partial:
+                v = self.fresh()
+                return self.bind(e, v, self.ret(v))
+            return self.ret(e.text)
+        if isinstance(s, ast.Raise):
+            exc = s.exc
+            cls = exc.func if isinstance(exc, ast.Call) else exc
+            if not isinstance(cls, ast.Name):
+                raise Untranslatable("raise " + ast.unparse(s))
+            self.constructs.add("raise")
+            return self.err(self.cls(cls.id))
+        if isinstance(s, ast.Break) and self.in_loop:
+            return self.loop_break()
+        if isinstance(s, ast.Continue) and self.in_loop:
+            return self.loop_continue()
+        if isinstance(s, ast.AugAssign) and isinstance(s.target, ast.Name):
+            return self.block([ast.Assign(targets=[s.target], value=ast.BinOp(left=ast.Name(id=s.target.id, ctx=ast.Load()), op=s.op, right=s.value))] + rest, k)
+        if isinstance(s, ast.Assign) and len(s.targets) == 1:
+            t = s.targets[0]
+            if isinstance(t, ast.Name):
+                decl = self.declared.get(t.id)
+                e = self.expr(s.value, want=decl or self.env.get(t.id))
+                if decl is not None and isinstance(decl, tuple) and decl[0] == "Option" and e.ty == decl[1]:
+                    e = self.lift([e], lambda ts: ("(some %s)" % ts[0], decl))
+                self.assign(t.id, e.ty)
+                return self.bind(e, t.id, cont())
+            if isinstance(t, ast.Tuple) and all(isinstance(x, ast.Name) for x in t.elts):
+                e = self.expr(s.value)
+                if not (isinstance(e.ty, tuple) and e.ty[0] == "Tuple" and len(e.ty) - 1 == len(t.elts)):
+                    raise Untranslatable("unpacking of " + lean_ty(e.ty))
+                for x, ty in zip(t.elts, e.ty[1:]):
+                    self.assign(x.id, ty)
+                self.constructs.add("tuple unpacking")
+                return self.bind(e, "(" + ", ".join(x.id for x in t.elts) + ")", cont())
+            if isinstance(t, ast.Subscript) and isinstance(t.value, ast.Name) and not isinstance(t.slice, ast.Slice):
+                xs = self.expr(t.value)
+                if not (isinstance(xs.ty, tuple) and xs.ty[0] == "List"):
+                    raise Untranslatable("item assignment on " + lean_ty(xs.ty))
+                i = self.expr(t.slice)
+                self.need(i, INT, t.slice)
+                v = self.expr(s.value, want=xs.ty[1])
+                self.need(v, xs.ty[1], s.value)
+                self.constructs.add("item assignment (IndexError explicit)")
+                g = self.lift([i, v], lambda ts: (self.prim("(Py.setItem %s %s %s)" % (xs.text, ts[0], ts[1])), xs.ty))
+                if g.partial:
+                    raise Untranslatable("partial operands in item assignment")
+                return self.bind(E(g.text, xs.ty, True), t.value.id, cont())
+        if isinstance(s, ast.Expr) and isinstance(s.value, ast.Call) and isinstance(s.value.func, ast.Attribute) \
+                and s.value.func.attr == "pop" and isinstance(s.value.func.value, ast.Name) and not s.value.keywords:
+            xs = self.expr(s.value.func.value)
+            args = s.value.args
+            if isinstance(xs.ty, tuple) and xs.ty[0] == "List":
+                self.constructs.add("list.pop (IndexError explicit)")
+                if not args:
+                    return self.bind(E(self.prim("(Py.popLast %s)" % xs.text), None, True), "(_, %s)" % xs.text, cont())
+                if len(args) == 1 and isinstance(args[0], ast.Constant) and args[0].value == 0:
+                    return self.bind(E(self.prim("(Py.pop0 %s)" % xs.text), None, True), "(_, %s)" % xs.text, cont())
+        if isinstance(s, ast.Expr) and isinstance(s.value, ast.Call) and isinstance(s.value.func, ast.Name) \
+                and s.value.func.id.startswith("self_") and s.value.func.id[5:] in self.methods \
+                and not s.value.args and not s.value.keywords:
+            # self.m(): another translated method run on the current attributes; its exceptions propagate
+            self.constructs.add("self.m() -> call of the translated method on the current attribute values")
+            call = "(%s)" % " ".join([self.methods[s.value.func.id[5:]]] + self.self_params)
+            return self.bind(E(call, None, True), "(_, %s)" % ", ".join(self.self_state), cont())
+        if isinstance(s, ast.If):
+            c = self.test(s.test)
+            v = self.fresh() if c.partial else None
+            if self.join and rest:
+                return self.joined(list(s.body) + list(s.orelse), cont, lambda kk: self.bind(c, v, "(if %s then\n%s\nelse\n%s)" % (
+                    v, _ind(self.block(s.body, kk)), _ind(self.block(s.orelse, kk)))) if c.partial else
+                    "(if %s then\n%s\nelse\n%s)" % (c.text, _ind(self.block(s.body, kk)), _ind(self.block(s.orelse, kk))))
+            text = "(if %s then\n%s\nelse\n%s)" % (v or c.text, _ind(self.block(s.body, cont)), _ind(self.block(s.orelse, cont)))
+            return self.bind(c, v, text) if c.partial else text
+        if isinstance(s, ast.Try) and not s.finalbody and s.handlers and (
+                len(s.body) == 1 or all(len(h.body) == 1 and isinstance(h.body[0], ast.Raise) for h in s.handlers)):
+            if self.join and rest:
+                stmts = list(s.body) + [x for h in s.handlers for x in h.body] + list(s.orelse)
+                return self.joined(stmts, cont, lambda kk: self.try_stmt(s, kk))
+            return self.try_stmt(s, cont)
+        if isinstance(s, ast.For) and not s.orelse:
+            return self.for_loop(s, cont)
+        if isinstance(s, ast.While) and not s.orelse:
+            return self.while_loop(s, cont)
+        raise Untranslatable("statement " + ast.unparse(s).split("\n")[0])
+
+    # ---- loops -----------------------------------------------------------
+    @staticmethod
+    def _assigned(stmts):
+        out = []
+        for n in ast.walk(ast.Module(body=list(stmts), type_ignores=[])):
+            tgts = []
+            if isinstance(n, ast.Assign):
+                tgts = n.targets
+            elif isinstance(n, (ast.AugAssign, ast.For)):
+                tgts = [n.target]
+            elif isinstance(n, ast.Call) and isinstance(n.func, ast.Attribute) and n.func.attr in ("pop", "append", "extend"):
+                tgts = [n.func.value]
+            for t in tgts:
+                while isinstance(t, (ast.Subscript, ast.Attribute)):   # xs[i] = v / o.a = v mutate the base variable
+                    t = t.value
+                for x in ast.walk(t):
+                    if isinstance(x, ast.Name) and x.id not in out:
+                        out.append(x.id)
+        return out
+
+    @staticmethod
+    def _names(nodes):
+        out = []
+        for n0 in nodes:
+            for n in ast.walk(n0):
+                if isinstance(n, ast.Name) and n.id not in out:
+                    out.append(n.id)
+        return out
+
+    def _loop_frame(self, s, targets):
+        state = [v for v in self._assigned(s.body) if v in self.env and v not in targets]
+        free = [v for v in self._names([s]) if v in self.env and v not in state and v not in targets]
+        return state, free
+
+    def _pat(self, names):
+        return "()" if not names else (names[0] if len(names) == 1 else "(" + ", ".join(names) + ")")
+
+    def _state_ty(self, state):
+        return "Unit" if not state else " × ".join(_atom(lean_ty(self.env[v])) for v in state)
+
+    def _after(self, call, state, cont):
+        saved = self.in_loop
+        return "(match %s with\n  | .ret r__ => %s\n  | .raise e__ => %s\n  | .fall %s =>\n%s)" % (
+            call, self.ret("r__"), self.err("e__"), self._pat(state), _ind(cont(), 4))
+
+    def for_loop(self, s, cont):
+        it = self.expr(s.iter)
+        if not (isinstance(it.ty, tuple) and it.ty[0] == "List"):
+            raise Untranslatable("for over a value of type " + lean_ty(it.ty))
+        elem = it.ty[1]
+        if isinstance(s.target, ast.Name):
+            targets, tys = [s.target.id], [elem]
+        elif isinstance(s.target, ast.Tuple) and all(isinstance(x, ast.Name) for x in s.target.elts) \
+                and isinstance(elem, tuple) and elem[0] == "Tuple" and len(elem) - 1 == len(s.target.elts):
+            targets, tys = [x.id for x in s.target.elts], list(elem[1:])
+        else:
+            raise Untranslatable("for target " + ast.unparse(s.target))
+        state, free = self._loop_frame(s, targets)
+        self.nloop += 1
+        fname = "%s.loop%d" % (self.name, self.nloop)
+        self.constructs.add("for -> structural recursion on the sequence")
+        for t, ty in zip(targets, tys):
+            self.assign(t, ty)
+        call_rec = "(%s)" % " ".join([fname] + free + ["rest__"] + state)
+        saved = (self.in_loop, getattr(self, "_brk", None), getattr(self, "_cnt", None))
+        self.in_loop, self._brk, self._cnt = True, "(.fall %s)" % self._pat(state), call_rec
+        body = self.block(s.body, lambda: call_rec)
+        self.in_loop, self._brk, self._cnt = saved
+        binders = "".join(" (%s : %s)" % (v, lean_ty(self.env[v])) for v in free)
+        sig = "def %s%s%s : %s → %sPy.Flow %s %s" % (
+            fname, self.implicit, binders, _atom(lean_ty(it.ty)), "".join(_atom(lean_ty(self.env[v])) + " → " for v in state),
+            self.exc_ty + " " + _atom(self._state_ty(state)), _atom(lean_ty(self.full_ret_ty or self.ret_ty)))
+        stpat = "".join(", " + v for v in state)
+        self.aux.append("%s\n  | []%s => .fall %s\n  | %s :: rest__%s =>\n%s\n" % (
+            sig, stpat, self._pat(state), self._pat(targets), stpat, _ind(body, 4)))
+        call = "(%s)" % " ".join([fname] + free + [it.text if not it.partial else "it__"] + state)
+        text = self._after(call, state, cont)
+        return self.bind(it, "it__", text) if it.partial else text
+
+    def while_loop(self, s, cont):
+        if not self.fuel:
+            raise Untranslatable("while loop without a fuel expression in the spec: " + ast.unparse(s.test))
+        fuel = self.expr(ast.parse(self.fuel.pop(0), mode="eval").body)
+        self.need(fuel, INT, s.test)
+        if fuel.partial:
+            raise Untranslatable("partial fuel expression")
+        state, free = self._loop_frame(s, [])
+        self.nloop += 1
+        fname = "%s.while%d" % (self.name, self.nloop)
+        self.constructs.add("while -> recursion on explicit fuel (OutOfFuel is an exception)")
+        call_rec = "(%s)" % " ".join([fname] + free + ["fuel__"] + state)
+        saved = (self.in_loop, getattr(self, "_brk", None), getattr(self, "_cnt", None))
+        self.in_loop, self._brk, self._cnt = True, "(.fall %s)" % self._pat(state), call_rec
+        c = self.test(s.test)
+        v = self.fresh() if c.partial else None
+        body = "(if %s then\n%s\nelse\n  (.fall %s))" % (v or c.text, _ind(self.block(s.body, lambda: call_rec)), self._pat(state))
+        if c.partial:
+            body = self.bind(c, v, body)
+        self.in_loop, self._brk, self._cnt = saved
+        binders = "".join(" (%s : %s)" % (x, lean_ty(self.env[x])) for x in free)
+        sig = "def %s%s%s : Nat → %sPy.Flow %s %s" % (
+            fname, self.implicit, binders, "".join(_atom(lean_ty(self.env[x])) + " → " for x in state),
+            self.exc_ty + " " + _atom(self._state_ty(state)), _atom(lean_ty(self.full_ret_ty or self.ret_ty)))
+        stpat = "".join(", " + x for x in state)
+        self.aux.append("%s\n  | 0%s => .raise OUTOFFUEL__\n  | fuel__ + 1%s =>\n%s\n" % (sig, stpat, stpat, _ind(body, 4)))
+        call = "(%s)" % " ".join([fname] + free + ["(%s).toNat" % fuel.text] + state)
+        return self._after(call, state, cont)
+
+    def joined(self, stmts, cont, build):
+        """
+        `build(k)` translates a branching statement whose branches continue with `k()`; here every branch calls ONE
+        auxiliary definition `<fn>.kN` holding the rest of the block, applied to the variables it reads (first the ones
+        that are not assigned by the branches, then the ones that are). Only at function level (inside a loop body the
+        rest contains the loop's recursive call: the branches get their own copy as without `join`).
+        """
+        if self.in_loop:
+            return build(cont)
+        self.njoin += 1
+        name = "%s.k%d" % (self.name, self.njoin)
+        before = list(self.env)
+        # dry run of the branches, only to learn which variables (and types) they define; everything it emitted is dropped
+        snap = (len(self.aux), self.nloop, self.njoin, self.nfresh, list(self.fuel), set(self.constructs))
+        build(lambda: "DRY__")
+        after_build = set(self.env)
+        del self.aux[snap[0]:]
+        self.nloop, self.njoin, self.nfresh, self.fuel = snap[1], snap[2], snap[3], snap[4]
+        rest_text = cont()      # first: the rest (its own join points come before this one in the file)
+        mentioned = lambda v: re.search(r"(?<![A-Za-z0-9_.])%s(?![A-Za-z0-9_])" % re.escape(v), rest_text)
+        assigned = self._assigned(stmts)
+        live = [v for v in assigned if v in after_build and mentioned(v)]
+        free = [v for v in before if v not in live and mentioned(v)]
+        self.constructs.add("join point: the statements after an if / try are ONE auxiliary definition of the variables they read")
+        binders = "".join(" (%s : %s)" % (v, lean_ty(self.env[v])) for v in free + live)
+        self.aux.append("def %s%s%s : Except %s %s :=\n%s\n" % (
+            name, self.implicit, binders, self.exc_ty, _atom(lean_ty(self.full_ret_ty or self.ret_ty)), _ind(rest_text)))
+        call = "(%s)" % " ".join([name] + free + live)
+        return build(lambda: call)
+
+    def try_stmt(self, s, cont):
+        """
+        try: <ONE statement> except Cls / (Cls, ...): HANDLER [else: ELSE]
+        The body is a sub-computation (Flow): it falls through with the variables it assigned, returns, or raises; a raised
+        class listed by the handler runs HANDLER (in the enclosing context: it may break / continue / return / raise),
+        any other propagates. One statement only (no assignment can be half-done when the exception is raised), or several
+        when every handler is a single `raise` (nothing can observe the half-done assignments). Exception classes are
+        matched BY NAME: subclass relations between exception classes are not modelled.
+        """
+        if self.generic:
+            raise Untranslatable("try/except in a function abstracted over its exception type")
+        for h in s.handlers:
+            if h.type is None or h.name is not None:
+                raise Untranslatable("bare except / except ... as name")
+        assigned = self._assigned(s.body)
+        saved = (self.in_loop, getattr(self, "_brk", None), getattr(self, "_cnt", None))
+        self.in_loop, self._brk, self._cnt = True, None, None
+        holder = {}
+
+        def fall():
+            holder["vars"] = [v for v in assigned if v in self.env]
+            return "(.fall %s)" % self._pat(holder["vars"])
+
+        body = self.block(s.body, fall)
+        self.in_loop, self._brk, self._cnt = saved
+        vs = holder.get("vars", [])
+        self.constructs.add("try/except <classes> (one-statement body) -> match on the raised class name")
+        after = self.block(list(s.orelse), cont) if s.orelse else cont()
+        handlers = self.err("e__")          # no handler matches: the exception propagates
+        for h in reversed(s.handlers):      # first matching handler wins
+            classes = [ast.unparse(c) for c in (h.type.elts if isinstance(h.type, ast.Tuple) else [h.type])]
+            test = " || ".join('e__ == "%s"' % c for c in classes)
+            handlers = "(if %s then\n%s\nelse\n%s)" % (test, _ind(self.block(h.body, cont)), _ind(handlers))
+        return ("(match (%s : Py.Flow String %s %s) with\n  | .ret r__ => %s\n  | .raise e__ =>\n%s\n  | .fall %s =>\n%s)"
+                % (body, _atom(self._state_ty(vs)), _atom(lean_ty(self.full_ret_ty or self.ret_ty)), self.ret("r__"),
+                   _ind(handlers, 4), self._pat(vs), _ind(after, 4)))
+
+    def loop_break(self):
+        if self._brk is None:
+            raise Untranslatable("break / continue directly inside a try body")
+        return self._brk
+
+    def _unused_loop_break(self):
+        return self._brk
+
+    def loop_continue(self):
+        if self._cnt is None:
+            raise Untranslatable("break / continue directly inside a try body")
+        return self._cnt
+
+
+def translate_function(source, name, lean_name, cls=None, params=None, binders=None, ret=None, self_state=(), **kw):
+    """
+    Translate the whole function `name` to `def <lean_name> ... : Except String <ret>` (plus one auxiliary definition per
+    loop). `params`: python parameter -> type (default: from the annotations); `binders`: Lean binder text replacing the
+    automatic `(p : T)` list (for functions abstracted over their environment). Returns (lean text, python source, constructs).
+    """
+    fn = find_function(source, name, cls)
+    pysrc = ast.get_source_segment(source, fn)
+    if fn.args.vararg or fn.args.kwarg or fn.args.kwonlyargs or fn.args.defaults:
+        raise Untranslatable("signature of " + name)
+    # methods: the attribute `self.X` becomes the variable `self_X`; the attributes in `self_state` are mutable state and are
+    # returned next to the result: `return e` -> (e, self_X...), falling off the end (return None) -> ((), self_X...)
+    class _Self(ast.NodeTransformer):
+        def visit_Attribute(self, node):
+            if isinstance(node.value, ast.Name) and node.value.id == "self":
+                return ast.copy_location(ast.Name(id="self_" + node.attr, ctx=node.ctx), node)
+            return self.generic_visit(node)
+    if cls:
+        fn = _Self().visit(fn)
+        ast.fix_missing_locations(fn)
+    for n in ast.walk(fn):   # Python identifiers that are Lean keywords get a trailing underscore
+        if isinstance(n, ast.Name) and n.id in LEAN_KEYWORDS:
+            n.id += "_"
+        if isinstance(n, ast.arg) and n.arg in LEAN_KEYWORDS:
+            n.arg += "_"
+    # generator functions: `yield e` appends to the hidden accumulator `yield__`, which is what the function returns
+    # (the list of everything the generator yields when run to its end)
+    is_gen = any(isinstance(n, (ast.Yield, ast.YieldFrom)) for n in ast.walk(fn))
+    if is_gen:
+        class _Yield(ast.NodeTransformer):
+            def visit_Expr(self, node):
+                if isinstance(node.value, ast.Yield) and node.value.value is not None:
+                    return ast.copy_location(ast.Assign(
+                        targets=[ast.Name(id="yield__", ctx=ast.Store())],
+                        value=ast.BinOp(left=ast.Name(id="yield__", ctx=ast.Load()), op=ast.Add(),
+                                        right=ast.List(elts=[node.value.value], ctx=ast.Load()))), node)
+                return node
+        fn = _Yield().visit(fn)
+        ast.fix_missing_locations(fn)
+        if any(isinstance(n, (ast.Yield, ast.YieldFrom, ast.Return)) for n in ast.walk(fn)):
+            raise Untranslatable("yield used as an expression / yield from / return in a generator")
+    if params is None:
+        params = {a.arg: ann_type(a.annotation) for a in fn.args.args if a.arg != "self"}
+    ret_ty = ret if ret is not None else ann_type(fn.returns)
+    state = ["self_" + a for a in self_state]
+    inner_ret = ret_ty
+    if state:
+        ret_ty = ("Tuple", inner_ret) + tuple(params[v] for v in state)
+    tr = Tr(lean_name, params, ret_ty, **kw)
+    tr.self_params = [p for p in params if p.startswith("self_")]
+    tr.self_state = state
+    if state:
+        tr.ret_ty = inner_ret            # what `return e` must have; wrapped below
+        tr.full_ret_ty = ret_ty
+        plain_ret = tr.ret
+        tr.ret = lambda text: plain_ret(text) if text == "r__" else plain_ret("(%s, %s)" % (text, ", ".join(state)))
+        tr.constructs.add("method: self.X -> variable self_X; mutated attributes returned next to the result")
+
+    if is_gen:
+        tr.env["yield__"] = ret_ty
+        tr.constructs.add("generator: yield e -> append to the accumulator that is returned (the generator run to its end)")
+
+    def off_the_end():
+        if is_gen:
+            return tr.ret("yield__")
+        if inner_ret == "Unit":
+            return tr.ret("()")
+        raise Untranslatable("control reaches the end of %s without return (returns None)" % name)
+
+    body = tr.block(fn.body, off_the_end)
+    if is_gen:
+        body = "(let yield__ : %s := []\n%s)" % (lean_ty(ret_ty), _ind(body, 1))
+    tr.ret_ty = ret_ty
+    if tr.fuel:
+        raise Untranslatable("%d fuel expression(s) of the spec unused: the while loops are gone" % len(tr.fuel))
+    if binders is None:
+        binders = " ".join("(%s : %s)" % (p, lean_ty(t)) for p, t in params.items())
+    if tr.generic and tr.aux:
+        raise Untranslatable("loops in a function abstracted over its exception type")
+    out = "".join(a + "\n" for a in tr.aux)
+    out += "def %s %s : Except %s %s :=\n%s\n" % (lean_name, binders, tr.exc_ty, _atom(lean_ty(ret_ty)), _ind(body))
+    out = out.replace("EXC__", tr.exc_ty).replace("OUTOFFUEL__", tr.cls("OutOfFuel"))
+    return out, pysrc, sorted(tr.constructs)
